@@ -8,10 +8,14 @@ import (
 	"encoding/binary"
 	"errors"
 	"fmt"
+	eth2client "github.com/attestantio/go-eth2-client"
+	rootlatest "github.com/attestantio/vouch/strategies/beaconblockroot/latest"
+	rootmaj "github.com/attestantio/vouch/strategies/beaconblockroot/majority"
 	"runtime"
 	"strings"
 	"sync"
 	"sync/atomic"
+	"time"
 
 	"github.com/attestantio/go-eth2-client/api"
 	apiv1 "github.com/attestantio/go-eth2-client/api/v1"
@@ -67,7 +71,10 @@ func (h *headers) SignedBeaconBlock(_ context.Context, opts *api.SignedBeaconBlo
 	return nil, errors.New("404 block not found")
 }
 
-func (h *headers) BeaconBlockHeader(_ context.Context, opts *api.BeaconBlockHeaderOpts) (*api.Response[*apiv1.BeaconBlockHeader], error) {
+func (h *headers) BeaconBlockHeader(ctx context.Context, opts *api.BeaconBlockHeaderOpts) (*api.Response[*apiv1.BeaconBlockHeader], error) {
+	if ctx.Err() != nil {
+		return nil, ctx.Err() // as an HTTP client does with a request whose context has ended
+	}
 	h.calls.Add(1)
 	h.mu.Lock()
 	defer h.mu.Unlock()
@@ -415,15 +422,89 @@ func cleanRace(c *harness.Ctx) {
 	})
 }
 
+// rootNode reports one head root.
+type rootNode struct{ root phase0.Root }
+
+func (n rootNode) BeaconBlockRoot(context.Context, *api.BeaconBlockRootOpts) (*api.Response[*phase0.Root], error) {
+	r := n.root
+	return &api.Response[*phase0.Root]{Data: &r, Metadata: map[string]any{}}, nil
+}
+
+// consumers: the strategies that ask the cache for slots, over the real cache (cold: every root has to be fetched) and a
+// healthy node. With the votes tied (majority) or always (latest) the root of the block with the higher slot must win.
+func consumers(c *harness.Ctx) {
+	n := c.N(150, 6000)
+	ctx := context.Background()
+	for i := 0; i < n; i++ {
+		id := fmt.Sprintf("consumer%d", i)
+		c.Case(id, func() {
+			r := c.Rand("consumer", i)
+			clock := harness.NewVClock(12*time.Second, 32)
+			clock.SetSlot(5000)
+			h := &headers{truth: map[phase0.Root]phase0.Slot{}, parent: map[phase0.Root]phase0.Root{}, fail: map[phase0.Root]int{}}
+			a, b := mkRoot(uint64(2*i)), mkRoot(uint64(2*i+1))
+			sa := phase0.Slot(4000 + r.Intn(900))
+			sb := sa + phase0.Slot(1+r.Intn(20))
+			if r.Intn(2) == 0 {
+				sa, sb = sb, sa
+			}
+			h.truth[a], h.truth[b] = sa, sb
+			svc, _, _, err := newService(clock, h)
+			if err != nil {
+				c.Inconclusive("cache.New: " + err.Error())
+				return
+			}
+			want := a
+			if sb > sa {
+				want = b
+			}
+			nodes := map[string]eth2client.BeaconBlockRootProvider{"n1": rootNode{a}, "n2": rootNode{b}}
+			which := []string{"majority", "latest"}[i%2]
+			var got *api.Response[*phase0.Root]
+			if which == "majority" {
+				st, err := rootmaj.New(ctx, rootmaj.WithLogLevel(zerolog.Disabled), rootmaj.WithClientMonitor(nullmetrics.New()), rootmaj.WithProcessConcurrency(2), rootmaj.WithBeaconBlockRootProviders(nodes),
+					rootmaj.WithTimeout(2*time.Second), rootmaj.WithBlockRootToSlotCache(svc))
+				if err != nil {
+					c.Inconclusive("majority strategy: " + err.Error())
+					return
+				}
+				got, err = st.BeaconBlockRoot(ctx, &api.BeaconBlockRootOpts{Block: "head"})
+				if err != nil {
+					c.Violate("consumer-error:majority", "the majority strategy over two healthy nodes returned an error: "+err.Error(), id, nil)
+					return
+				}
+			} else {
+				st, err := rootlatest.New(ctx, rootlatest.WithLogLevel(zerolog.Disabled), rootlatest.WithClientMonitor(nullmetrics.New()), rootlatest.WithProcessConcurrency(2), rootlatest.WithBeaconBlockRootProviders(nodes),
+					rootlatest.WithTimeout(2*time.Second), rootlatest.WithBlockRootToSlotCache(svc))
+				if err != nil {
+					c.Inconclusive("latest strategy: " + err.Error())
+					return
+				}
+				got, err = st.BeaconBlockRoot(ctx, &api.BeaconBlockRootOpts{Block: "head"})
+				if err != nil {
+					c.Violate("consumer-error:latest", "the latest strategy over two healthy nodes returned an error: "+err.Error(), id, nil)
+					return
+				}
+			}
+			c.Count("consumer_decisions_checked", 1)
+			if got == nil || got.Data == nil || *got.Data != want {
+				c.Violate("consumer-did-not-get-the-slot:"+which, fmt.Sprintf("the %s strategy had to choose between the blocks of slots %d and %d (roots not yet cached, node healthy) and did not choose the later one: the slots it was given by the cache cannot be the blocks' slots", which, sa, sb), id, map[string]any{"header_fetches": h.calls.Load()})
+			}
+			c.Distinct(fmt.Sprintf("consumer|%s|%v", which, sb > sa))
+		})
+	}
+}
+
 func main() {
 	harness.Main(&harness.Spec{
 		Property: "C18",
 		Level:    "exploration",
-		Rule:     "random histories of {block event, lookup hit/miss/unknown root, scripted fetch failure, clean at a random epoch} over 2-7 roots and 1-32 slots per epoch, judged step by step against a reference map and the provider's call counter; distinct = (length, set of step classes seen, roots); non-trivial = history exercised >=3 of {hit, miss-ok, miss-fail, clean-retain, clean-old, cleaned-observed, kept-old}; plus concurrent lookup/event/clean runs under the race detector",
+		Rule:     "random histories of {block event, lookup hit/miss/unknown root, scripted fetch failure, clean at a random epoch} over 2-7 roots and 1-32 slots per epoch, judged step by step against a reference map and the provider's call counter; distinct = (length, set of step classes seen, roots); non-trivial = history exercised >=3 of {hit, miss-ok, miss-fail, clean-retain, clean-old, cleaned-observed, kept-old}; plus concurrent lookup/event/clean runs under the race detector; plus the majority and latest beacon block root strategies over the real, cold cache and a node that refuses ended contexts (the later block must win a tie)",
 		Run: func(c *harness.Ctx) {
 			sequential(c)
 			concurrent(c)
 			cleanRace(c)
+			consumers(c)
 		},
 		MinDistinct: 20,
 		Assumptions: []string{"a root identifies one block, so block events and headers agree on its slot", "cleaning is only required not to remove entries inside the 64-epoch window; removal of older entries is observed, not required"},
